@@ -15,6 +15,6 @@ CONSTANTS
     MaxGrow = 9
     MacroGet = "bsearch_scan"
     Emit = TRUE
-INVARIANTS GetIsFirst DedupOnceFirst UniqueClaimSound BreakStops EnumIsSpec
+INVARIANTS GetIsFirst DedupOnceFirst UniqueClaimSound BreakStops EnumIsSpec SerIsEnum
 ACTION_CONSTRAINT EmitReplay
 CHECK_DEADLOCK FALSE
